@@ -23,8 +23,8 @@ func init() {
 }
 
 var panicTable = map[string]string{
-	"roundAddOne":         "argument is a quotient of non-negative coefficients (callers: Rounder.Round, Context.Quo)",
-	"(Condition).String":  "default case: unreachable for the closed flag set (C02.R1) because every flag has a case",
+	"roundAddOne":          "argument is a quotient of non-negative coefficients (callers: Rounder.Round, Context.Quo)",
+	"(Condition).String":   "default case: unreachable for the closed flag set (C02.R1) because every flag has a case",
 	"(*Decimal).Decompose": "default case: Form outside the four declared values is ill-formed",
 }
 
